@@ -1,2 +1,3 @@
+@property
 def spec(self):
     return self.get_connection(self.__feedback_connection_name)
